@@ -7,10 +7,10 @@ use crate::report::{par_run, Report};
 use crate::rng::Rng;
 use serde_json::json;
 
-pub const RULE: &str = "Constructor calls observed under catch_unwind: every single-period constructor for every period 0..=4096 (exhaustive), every multi-period constructor (SLOW 2 periods, MACD/PPO 3 periods) for all tuples over 0..=24 (exhaustive), boundary periods {2^31, 2^32, 2^53+1, usize::MAX-1, usize::MAX} in every period slot of the allocation-free indicators (EMA, ATR, RSI, KC, MACD, PPO, and SLOW's EMA period), sampled large periods up to 2^22 for windowed ones, multipliers {0,-2,1e300,NaN,-0.0,2.5}. Oracle: Err(InvalidParameter) iff some period argument is 0, else Ok, never a panic; period()/multiplier() (bitwise) and Display == NAME(params) immediately, after a stream of next calls, and after reset; Default::default() has the documented parameters and produces the same outputs as new(defaults) (1e-12 relative; bit-identity reported). Non-trivial: every (indicator, period tuple, multiplier) constructor call is a distinct case; the enumerated part is exhaustive.";
+pub const RULE: &str = "Constructor calls observed under catch_unwind: every single-period constructor for every period 0..=4096 (exhaustive), every multi-period constructor (SLOW 2 periods, MACD/PPO 3 periods) for all tuples over 0..=24 (exhaustive), boundary periods {2^31, 2^32, 2^53+1, usize::MAX-1, usize::MAX} in every period slot of the allocation-free indicators (EMA, ATR, RSI, KC, MACD, PPO, and SLOW's EMA period), sampled large periods up to 2^22 for windowed ones, multipliers {0,-2,1e300,NaN,-0.0,2.5,+inf,-inf,f64::MAX,f64::MIN,MIN_POSITIVE,5e-324,0.1}. Oracle: Err(InvalidParameter) iff some period argument is 0, else Ok, never a panic; period()/multiplier() (bitwise) and Display == NAME(params) immediately, after a stream of next calls, and after reset; Default::default() has the documented parameters and produces the same outputs as new(defaults) (1e-12 relative; bit-identity reported). Non-trivial: every (indicator, period tuple, multiplier) constructor call is a distinct case; the enumerated part is exhaustive.";
 
 const BOUNDARY: [usize; 5] = [1usize << 31, 1usize << 32, (1usize << 53) + 1, usize::MAX - 1, usize::MAX];
-const MULTS: [f64; 6] = [0.0, -2.0, 1e300, f64::NAN, -0.0, 2.5];
+const MULTS: [f64; 13] = [0.0, -2.0, 1e300, f64::NAN, -0.0, 2.5, f64::INFINITY, f64::NEG_INFINITY, f64::MAX, f64::MIN, f64::MIN_POSITIVE, 5e-324, 0.1];
 
 fn violation(rep: &mut Report, p: &Params, class: &str, detail: String) {
     let band = if p.periods().iter().any(|x| *x > 4096) { "huge_period" } else { "small_period" };
